@@ -386,7 +386,7 @@ impl<'a> CostEstimator<'a> {
                         .default_graphs
                         .iter()
                         .map(|graph| self.stats.get_graph_cardinality(*graph))
-                        .sum()
+                        .fold(0u64, u64::saturating_add)
                 })
                 .unwrap_or_else(|| self.stats.get_graph_cardinality(GraphId::Default)),
             GraphTerm::Named(graph) => {
@@ -401,7 +401,7 @@ impl<'a> CostEstimator<'a> {
                 .visible_named_graphs()
                 .into_iter()
                 .map(|graph| self.stats.get_graph_cardinality(graph))
-                .sum(),
+                .fold(0u64, u64::saturating_add),
         }
     }
 
@@ -647,7 +647,7 @@ impl<'a> CostEstimator<'a> {
             PhysicalOperator::Union { branches } => branches
                 .iter()
                 .map(|branch| self.estimate_output_cardinality_in_context(branch, active_graph))
-                .sum(),
+                .fold(0u64, u64::saturating_add),
             PhysicalOperator::Graph { input, graph } => match graph {
                 GraphTerm::Default => self.estimate_output_cardinality_in_context(input, None),
                 GraphTerm::Named(graph) if self.fixed_graph_is_visible(*graph) => {
@@ -658,7 +658,7 @@ impl<'a> CostEstimator<'a> {
                     .visible_named_graphs()
                     .into_iter()
                     .map(|graph| self.estimate_output_cardinality_in_context(input, Some(graph)))
-                    .sum(),
+                    .fold(0u64, u64::saturating_add),
             },
             PhysicalOperator::Filter { input, condition } => {
                 let input_cardinality =
